@@ -7,7 +7,9 @@ package c19
 import (
 	"encoding/json"
 	"fmt"
+	"os"
 	"strings"
+	"sync"
 	"unicode/utf8"
 
 	"github.com/octohelm/gengo/pkg/camelcase"
@@ -42,6 +44,14 @@ var convs = []conv{
 type Case struct {
 	S      string `json:"s_quoted"` // strconv-quoted so that invalid bytes survive JSON
 	Before string `json:"before_quoted,omitempty"`
+	Seq    []Op   `json:"fresh_process_sequence,omitempty"`
+}
+
+// Op is one call of a fresh-process sequence: function index (0..5 = the six
+// converters, 6 = Split) and quoted input.
+type Op struct {
+	F int    `json:"f"`
+	S string `json:"s_quoted"`
 }
 
 func q(s string) string { return fmt.Sprintf("%+q", s) }
@@ -202,6 +212,7 @@ func run(c *core.Ctx) {
 			}
 		}
 	})
+	runSequences(c)
 	// (3) all ordered pairs of strings up to pairLen: purity across calls
 	var small []string
 	core.Explore(c, core.ExploreOpts{Bound: -1}, func(ch *core.Chooser, _ bool) {
@@ -224,6 +235,10 @@ func replay(c *core.Ctx, raw json.RawMessage) {
 		c.Internal("bad case: %v", err)
 		return
 	}
+	if len(cs.Seq) > 0 {
+		checkSeq(c, cs.Seq)
+		return
+	}
 	if cs.Before != "" {
 		checkPair(c, unq(cs.Before), unq(cs.S))
 		return
@@ -232,9 +247,10 @@ func replay(c *core.Ctx, raw json.RawMessage) {
 }
 
 func init() {
+	core.RegisterWorker("c19seq", seqWorker)
 	core.Register(&core.Prop{
 		ID: "C19", Level: "model_checking", Run: run, Replay: replay,
-		Rule: "every string of <=N runes over a 13-symbol rune-class alphabet (lower, upper, digit, '_', '-', '.', space, non-ASCII lower/upper, title-case letter, non-ASCII digit, CJK, NBSP), every such string <=M runes with one invalid UTF-8 sequence inserted at every position, and all ordered pairs of strings <=2 runes; a case is non-trivial when Split yields more than one word; states = distinct (word count, word-class pattern) outcomes",
+		Rule: "every string of <=N runes over a 13-symbol rune-class alphabet (lower, upper, digit, '_', '-', '.', space, non-ASCII lower/upper, title-case letter, non-ASCII digit, CJK, NBSP), every such string <=M runes with one invalid UTF-8 sequence inserted at every position, all ordered pairs of strings <=2 runes in one process, and every call sequence of length 2 (20 inputs) / 3 (6 inputs) / 2 with two different functions (6 inputs) executed in a FRESH process and compared with the single-call result of a fresh process; a case is non-trivial when Split yields more than one word; states = distinct (word count, word-class pattern) outcomes",
 		Assumptions: []string{
 			"the rune classes the code branches on (unicode.IsLower/IsUpper/IsDigit/IsLetter/IsGraphic, ASCII vs multi-byte) are each represented in the alphabet",
 			"purity is observed through return values of consecutive calls in one process",
@@ -245,3 +261,158 @@ func init() {
 func isLower(r rune) bool { return unicodeIsLower(r) }
 func isUpper(r rune) bool { return unicodeIsUpper(r) }
 func isDigit(r rune) bool { return unicodeIsDigit(r) }
+
+// ---------------------------------------------------------------------------
+// purity over call histories that start in a fresh process
+
+var seqFuncs = []string{"LowerSnakeCase", "UpperSnakeCase", "LowerKebabCase", "UpperKebabCase", "LowerCamelCase", "UpperCamelCase", "Split"}
+
+func callF(f int, s string) (out string) {
+	defer func() {
+		if r := recover(); r != nil {
+			out = fmt.Sprintf("PANIC: %v", r)
+		}
+	}()
+	if f == 6 {
+		return strings.Join(camelcase.Split(s), "\x00")
+	}
+	return convs[f].f(s)
+}
+
+func seqWorker(args []string) int {
+	var ops []Op
+	if err := json.NewDecoder(os.Stdin).Decode(&ops); err != nil {
+		fmt.Fprintln(os.Stderr, err)
+		return 2
+	}
+	outs := make([]string, len(ops))
+	for i, op := range ops {
+		outs[i] = q(callF(op.F, unq(op.S)))
+	}
+	_ = json.NewEncoder(os.Stdout).Encode(outs)
+	return 0
+}
+
+func runSeq(c *core.Ctx, ops []Op) ([]string, bool) {
+	in, _ := json.Marshal(ops)
+	out, errb, err := core.RunWorker("c19seq", in)
+	if err != nil {
+		c.Internal("sequence worker failed: %v %s", err, errb)
+		return nil, false
+	}
+	var outs []string
+	if err := json.Unmarshal(out, &outs); err != nil || len(outs) != len(ops) {
+		c.Internal("sequence worker output: %v %q", err, out)
+		return nil, false
+	}
+	c.Trans(len(ops))
+	return outs, true
+}
+
+var refMu sync.Mutex
+var refCache = map[Op]string{}
+
+// reference: the result of the call as the only call of a fresh process
+func single(c *core.Ctx, op Op) (string, bool) {
+	refMu.Lock()
+	v, ok := refCache[op]
+	refMu.Unlock()
+	if ok {
+		return v, true
+	}
+	outs, ok := runSeq(c, []Op{op})
+	if !ok {
+		return "", false
+	}
+	refMu.Lock()
+	refCache[op] = outs[0]
+	refMu.Unlock()
+	return outs[0], true
+}
+
+func checkSeq(c *core.Ctx, ops []Op) {
+	c.Eval(1)
+	c.Trace(1)
+	outs, ok := runSeq(c, ops)
+	if !ok {
+		return
+	}
+	c.State("seq/" + strings.Join(outs, "/"))
+	if len(ops) > 1 {
+		c.Nontrivial(fmt.Sprint(ops))
+	}
+	for i, op := range ops {
+		ref, ok := single(c, op)
+		if !ok {
+			return
+		}
+		if outs[i] != ref {
+			c.Fail("", Case{Seq: ops}, "in a fresh process, call %d of the sequence %s returned %s, but the same call as the only call of a fresh process returns %s", i+1, fmtOps(ops), outs[i], ref)
+			return
+		}
+	}
+}
+
+func fmtOps(ops []Op) string {
+	var parts []string
+	for _, op := range ops {
+		parts = append(parts, fmt.Sprintf("%s(%s)", seqFuncs[op.F], op.S))
+	}
+	return strings.Join(parts, "; ")
+}
+
+// inputs chosen so that words recur at different positions, in different
+// cases and across inputs (the shapes a memo or scratch buffer would confuse)
+var seqInputs = []string{"a", "a_b", "b_a", "a_a", "ab", "aB", "Ba", "a b", "ID", "id_a", "a_id", "A", "7a", "a7", "_a", "é_a", "a_é", "AB", "aBa", ""}
+var seqInputsSmall = []string{"a_b", "b_a", "a_a", "aB", "id_a", "A"}
+
+func runSequences(c *core.Ctx) {
+	c.Bound("fresh_process_sequence_inputs", seqInputs)
+	c.Bound("fresh_process_sequence_inputs_len3_and_cross_function", seqInputsSmall)
+	par := make(chan struct{}, 4)
+	var wg sync.WaitGroup
+	do := func(ops []Op) {
+		if !c.Next() {
+			return
+		}
+		wg.Add(1)
+		par <- struct{}{}
+		go func() {
+			defer func() { <-par; wg.Done() }()
+			checkSeq(c, ops)
+		}()
+	}
+	// all sequences of length 2 with one function
+	for f := range seqFuncs {
+		for _, t := range seqInputs {
+			for _, s := range seqInputs {
+				do([]Op{{f, q(t)}, {f, q(s)}})
+			}
+		}
+	}
+	// all sequences of length 3 with one function over the small alphabet
+	for f := range seqFuncs {
+		for _, a := range seqInputsSmall {
+			for _, b := range seqInputsSmall {
+				for _, d := range seqInputsSmall {
+					do([]Op{{f, q(a)}, {f, q(b)}, {f, q(d)}})
+				}
+			}
+		}
+	}
+	// all sequences of length 2 with two different functions over the small alphabet
+	for f := range seqFuncs {
+		for g := range seqFuncs {
+			if f == g {
+				continue
+			}
+			for _, t := range seqInputsSmall {
+				for _, s := range seqInputsSmall {
+					do([]Op{{f, q(t)}, {g, q(s)}})
+				}
+			}
+		}
+	}
+	wg.Wait()
+	c.Sample(map[string]any{"fresh_process_sequence": fmtOps([]Op{{4, q("a_b")}, {4, q("b_a")}})})
+}
